@@ -363,19 +363,6 @@ def get_confirmed_edges_for_node(graph: nx.MultiDiGraph, node: DSGNode, include_
                                  _traversed=None, _traversed_to_update=None, _walked_hit=None,
                                  cache=None) -> Set[EdgeTuple]:
 
-    # Initialize temp storage if needed
-    # _traversed: store for each traversed node which edges were marked as confirmed
-    # _traversed_to_update: node pairs (src, tgt) where the edges of the tgt should be the same as edges of the src
-    # _walked_hit: temp cache to remember which nodes are part of a loop when encountering a previously-traversed node
-    is_request_start = False
-    if _traversed is None:
-        _traversed = {node: set()}
-        is_request_start = True
-    if _traversed_to_update is None:
-        _traversed_to_update = []
-    if _walked_hit is None:
-        _walked_hit = {}
-
     # Load cache if available
     conf_edges_cache = None
     if cache is not None:
@@ -385,68 +372,32 @@ def get_confirmed_edges_for_node(graph: nx.MultiDiGraph, node: DSGNode, include_
         if node in conf_edges_cache:
             return conf_edges_cache[node].copy()
 
-    # Loop over outgoing edges
+    # Walk the graph from the requested node, stopping at choice nodes. Every node reachable this way is confirmed
+    # together with the requested node, also if the path leads through one or more (overlapping) derivation cycles
     confirmed_edges = set()
-    for out_edge in iter_out_edges(graph, node):
-        if get_edge_type(out_edge) == EdgeType.INCOMPATIBILITY:
-            continue
+    walked = {node}
+    to_walk = [node]
+    while len(to_walk) > 0:
+        walk_node = to_walk.pop()
+        for out_edge in iter_out_edges(graph, walk_node):
+            if get_edge_type(out_edge) == EdgeType.INCOMPATIBILITY:
+                continue
 
-        # Stop at choice nodes
-        if isinstance(out_edge[1], ChoiceNode):
-            # Mark edge as confirmed if we also want to return choice nodes
-            if include_choice:
-                confirmed_edges.add(out_edge)
-            continue
+            # Stop at choice nodes
+            if isinstance(out_edge[1], ChoiceNode):
+                # Mark edge as confirmed if we also want to return choice nodes
+                if include_choice:
+                    confirmed_edges.add(out_edge)
+                continue
 
-        # Check if already walked
-        if out_edge[1] in _traversed:
-            # Remember where we obtained this hit
-            if node not in _walked_hit:
-                _walked_hit[node] = []
-            _walked_hit[node].append(out_edge[1])
-
-            # Mark the edge as confirmed
             confirmed_edges.add(out_edge)
-            continue
+            if out_edge[1] not in walked:
+                walked.add(out_edge[1])
+                to_walk.append(out_edge[1])
 
-        if out_edge[1] not in _traversed:
-            _traversed[out_edge[1]] = set()
-
-        # Recursively walk the graph
-        confirmed_edges.add(out_edge)
-        child_confirmed_edges = get_confirmed_edges_for_node(
-            graph, out_edge[1], include_choice=include_choice,
-            _traversed=_traversed, _traversed_to_update=_traversed_to_update, _walked_hit=_walked_hit, cache=cache)
-
-        confirmed_edges |= child_confirmed_edges
-
-        # If the target node lead to a (downstream) "walked hit"
-        if out_edge[1] in _walked_hit:
-
-            # Extend the update list to include the current edge target
-            hit_nodes = _walked_hit[out_edge[1]]
-            for tgt_nodes in hit_nodes:
-                _traversed_to_update.append((out_edge[1], tgt_nodes))
-
-            # Propagate "walked hit" nodes upstream
-            _walked_hit[out_edge[1]] = hit_nodes = [nd for nd in hit_nodes if nd != node]
-            if len(hit_nodes) > 0:
-                if node not in _walked_hit:
-                    _walked_hit[node] = []
-                _walked_hit[node] += hit_nodes
-
-    # Update the traversed edges for this node
-    _traversed[node] = confirmed_edges
-
-    # Update traversed edges for nodes part of a loop
-    for tgt_node, src_node in _traversed_to_update:
-        _traversed[tgt_node].update(_traversed[src_node])
-
-    # Update cache only if this was the originally-requested start node
-    if conf_edges_cache is not None and is_request_start:
-        for start_node, edges in _traversed.items():
-            if start_node not in conf_edges_cache:
-                conf_edges_cache[start_node] = edges
+    # Update cache for the requested node
+    if conf_edges_cache is not None:
+        conf_edges_cache[node] = confirmed_edges.copy()
 
     return confirmed_edges
 
